@@ -399,6 +399,85 @@ def r9_emit_total(c, facts, rule='C04.R9'):
 
 
 
+def r17_leaf_agree(c, facts, rule='C04.R17'):
+    """a typed accessor that reads child number k as a *leaf* and takes its text (`self.node().nth(K).as_str()`) panics on
+    anything but a token with a string value: the production of that node kind must attach, at position k, a token of a
+    kind to which tokenize() gives a string value - not a node, not a number or a status."""
+    from facts import hir_walk, pat_variants, variant_of
+    import mirflow as MF
+    import pathrules as P
+    R = c.rule(rule, 'LEAF-AGREE: where a typed accessor reads a child as a string-valued leaf, the production attaches a token of a string-valued kind at that position')
+    # kinds with a string value: the arms of tokenize() that build TokenValue::Symbol
+    tk = facts.fn('oal_syntax::lexer::tokenize')
+    symbol = set()
+    if tk is not None and tk.hir:
+        for e, anc in hir_walk(tk.hir['body']):
+            if e['k'] == 'match' and 'TokenKind' in e['scrut'].get('ty', ''):
+                for arm in e['arms']:
+                    if any(x['k'] == 'call' and variant_of(x['f']) == 'Symbol' for x, _ in hir_walk(arm['body'])):
+                        symbol |= set(pat_variants(arm['pat']))
+    if not symbol:
+        c.bad(R, 'anchor-missing:tokenize-symbol-arms', 'cannot read from tokenize() which token kinds get a string value')
+        return
+    n = 0
+    for q, l in sorted(facts.by_qname.items()):
+        m = re.match(r'oal_syntax::parser::([A-Z]\w*)::(\w+)$', q)
+        if not m or not l[0].mir:
+            continue
+        fn = l[0]
+        idx = MF.defs_index(fn)
+        for b, t in P.call_blocks(fn, 'NodeRef::as_str'):
+            if not t['args'] or 'l' not in t['args'][0]:
+                continue
+            sl = MF.slice_back(fn, t['args'][0]['l'], idx)
+            nth = [ct for x, ct, _ in sl['calls'] if P.strip(x).endswith('NodeRef::nth')]
+            if not nth:
+                continue
+            k = nth[0]['args'][1].get('val') if len(nth[0]['args']) > 1 else None
+            if k is None or not str(k).isdigit():
+                c.skip(R, q, 'child position not a constant')
+                continue
+            k = int(k)
+            n += 1
+            node_kind = m.group(1)
+            found = False
+            for pf in facts.fns.values():
+                if pf.crate != 'oal_syntax' or not pf.mir or not pf.qname.startswith('oal_syntax::parser::parse_'):
+                    continue
+                pidx = None
+                for pb, pt in P.call_blocks(pf, 'Context::compose'):
+                    if len(pt['args']) < 3 or 'l' not in pt['args'][1] and pt['args'][1].get('o') != 'const':
+                        continue
+                    pidx = pidx or MF.defs_index(pf)
+                    kinds = {rv.get('variant') for rv, _ in MF.slice_back(pf, pt['args'][1]['l'], pidx)['aggrs'] if 'SyntaxKind' in (rv.get('adt') or '')} if 'l' in pt['args'][1] else set()
+                    if node_kind not in kinds:
+                        continue
+                    arr = [rv for rv, _ in MF.slice_back(pf, pt['args'][2]['l'], pidx, through_calls=False)['aggrs'] if rv.get('ak') == 'array'] if 'l' in pt['args'][2] else []
+                    if not arr or len(arr[0]['ops']) <= k or 'l' not in arr[0]['ops'][k]:
+                        continue
+                    found = True
+                    isprod = lambda nm: P.strip(nm).split('::')[-1].startswith('parse_')
+                    csl = MF.slice_back(pf, arr[0]['ops'][k]['l'], pidx, stop_at=isprod)
+                    pcalls = [(P.strip(x).split('::')[-1], ct) for x, ct, _ in csl['calls'] if isprod(x)]
+                    prods = sorted({nm for nm, _ in pcalls})
+                    tkinds = set()
+                    for nm, ct in pcalls:
+                        if nm == 'parse_token' and len(ct['args']) > 2:
+                            a = ct['args'][2]
+                            if 'l' in a:
+                                tkinds |= {rv.get('variant') for rv, _ in MF.slice_back(pf, a['l'], pidx, through_calls=False)['aggrs'] if 'TokenKind' in (rv.get('adt') or '')}
+                            elif a.get('o') == 'const' and 'TokenKind::' in (a.get('d') or ''):
+                                tkinds.add(a['d'].split('TokenKind::')[-1].split('(')[0].strip())
+                    inst = {'accessor': q, 'position': k, 'production': pf.qname, 'attached_by': prods, 'token_kinds': sorted(x for x in tkinds if x)}
+                    if prods == ['parse_token'] and tkinds and tkinds <= symbol:
+                        c.ok(R, inst)
+                    else:
+                        c.bad(R, 'leaf-read-of-non-string-child:%s.%s' % (node_kind, m.group(2)), '%s takes the text of child %d of a %s node, which %s fills by %s (%s): a program in which that child is a node, a number or a status is parsed and then panics in the accessor' % (q, k, node_kind, pf.qname, prods or '?', sorted(x for x in tkinds if x) or 'no token kind'), **inst)
+            if not found:
+                c.skip(R, q, 'production composing %s with a fixed child list not found' % node_kind)
+    c.floor(R, 'accessors reading a child as a string-valued leaf', n, 1)
+
+
 def r4_memo_total(c, facts, rule='C04.R4'):
     import c12
     import mirflow as MF
@@ -472,6 +551,7 @@ def run(c, facts):
     c.run(lambda c: _c08.r14_same_winner(c, facts, rule='C04.R16'))      # the parameter inference typed is the one evaluation binds: otherwise a cast meets another kind
     import c07 as _c07
     c.run(lambda c: _c07.kind_table(c, facts, rule='C04.R15'))      # the checks the evaluator's casts rely on
+    c.run(r17_leaf_agree, facts)
     c.run(lambda c: r9_emit_total(c, facts))
     import c09
     R10 = c.rule('C04.R10', 'RECURSION-SAFE: a recursive program is either rejected or evaluated without running away: the cycle check is a fix-point that never cuts at an unresolved tag, and every cast that takes schema values takes the recursion marker (shared with C09.R3/R5)')
